@@ -59,6 +59,7 @@ type Exec struct {
 	assumed   map[string]bool // external contracts used
 	havocked  map[string]bool // external calls without contract
 	rebound   map[string]bool // locals named in clauses that were re-bound through their fingerprint
+	loopClaim map[*ssa.BasicBlock]*LoopSpec // loop header -> the contract block assigned to it
 	entry     *State          // snapshot for old()
 	params    map[string]Value
 	loops     map[*ssa.Function]*loopInfo
@@ -77,7 +78,7 @@ type Exec struct {
 
 func NewExec(w *World, fn *ssa.Function, spec *FuncSpec) *Exec {
 	return &Exec{w: w, top: fn, spec: spec, names: map[string]int{}, locIDs: map[string]*Term{}, locBack: map[string]*Loc{},
-		cloBack: map[string]*Closure{}, maxPaths: 4096, inlined: map[string]bool{}, assumed: map[string]bool{}, havocked: map[string]bool{}, rebound: map[string]bool{},
+		cloBack: map[string]*Closure{}, maxPaths: 4096, inlined: map[string]bool{}, assumed: map[string]bool{}, havocked: map[string]bool{}, rebound: map[string]bool{}, loopClaim: map[*ssa.BasicBlock]*LoopSpec{},
 		loops: map[*ssa.Function]*loopInfo{}, iterSites: map[*ssa.Function]int{}, exitBound: map[string]bool{}, iterSeen: map[int]bool{}, backing: map[string]*backingInfo{}}
 }
 
@@ -181,9 +182,15 @@ func (x *Exec) Run() (obls []*Obligation, err error) {
 	}
 	// every loop / iterator block of the contract must bind to a loop / iterator call site of the body
 	nloops := len(x.loopsOf(x.top).loops)
-	for ord := range x.spec.Loops {
-		if ord >= nloops {
-			return nil, x.subsetf("contract clause 'loop %d' binds to no loop of the function (it has %d)", ord, nloops)
+	for ord, sp := range x.spec.Loops {
+		claimed := false
+		for _, c := range x.loopClaim {
+			if c == sp {
+				claimed = true
+			}
+		}
+		if !claimed && ord >= nloops {
+			return nil, x.subsetf("contract clause 'loop %d' binds to no loop of the function (it has %d) nor of a helper inlined into it", ord, nloops)
 		}
 	}
 	for ord := range x.spec.Iters {
